@@ -247,6 +247,11 @@ def _match_cases(ck, sr_k8, sr, drv, G, P, W, R, root, tree, ents, pats, fl, exc
                     if method == 'match':
                         sfl |= G._EXTMATCHBASE
                     exp = K.outcome(lambda: G.globmatch(name, pats, flags=sfl, exclude=exclude))
+                if exp[0] in ('timeout', 'scan-budget'):
+                    # a reference call cut off by its time limit (nested quantifiers: exponential backtracking in `re`) is not a verdict
+                    # (thorough tier, unchanged tree: `*/[!a]+([a-][A-Z]|*+()|)/*(?()*)[^[:digit:]]-/***` — the method finished, the reference did not)
+                    _hist(sr, 'reference cut off (not a verdict)')
+                    continue
                 _hist(sr, f'{method}:{cls}:{exp[1] if exp[0] == "ok" else exp[1]}')
                 if res != exp:
                     f = Failing(f'{cls}.{method} differs from glob.globmatch on the path string',
